@@ -12,16 +12,39 @@ pub struct Sut {
     /// template ids the application removed from a public cache map: (number of ops before it,
     /// parser, map name, id) - replayed in order with the parse_bytes calls
     pub evictions: Vec<(usize, usize, &'static str, u16)>,
+    /// allowed_versions reassigned by the application: (number of ops before it, parser, new set as
+    /// sorted list; more than 64 members = all 65536)
+    pub reconfigs: Vec<(usize, usize, Vec<u16>)>,
+    /// per parser: the allowed set it had before its first reassignment
+    pub initial_allowed: Vec<Option<Vec<u16>>>,
     pub calls: u64,
     pub bytes: u64,
 }
 
 impl Sut {
     pub fn new(n: usize) -> Sut {
-        Sut { parsers: (0..n).map(|_| NetflowParser::default()).collect(), ops: vec![], evictions: vec![], calls: 0, bytes: 0 }
+        Sut { parsers: (0..n).map(|_| NetflowParser::default()).collect(), ops: vec![], evictions: vec![], reconfigs: vec![], initial_allowed: vec![], calls: 0, bytes: 0 }
     }
     /// The application removes one id from one of the public cache maps (as a collector that
     /// expires templates does). Returns whether the id was present.
+    /// The application assigns a new allowed set to the public field between two calls.
+    pub fn set_allowed(&mut self, p: usize, a: &crate::props::common::Allowed) {
+        if self.initial_allowed.len() < self.parsers.len() {
+            self.initial_allowed.resize(self.parsers.len(), None);
+        }
+        if self.initial_allowed[p].is_none() {
+            let mut v: Vec<u16> = self.parsers[p].allowed_versions.iter().cloned().collect();
+            v.sort();
+            self.initial_allowed[p] = Some(v);
+        }
+        a.apply(&mut self.parsers[p]);
+        if let crate::props::common::Allowed::Default = a {
+            self.parsers[p].allowed_versions = [5u16, 7, 9, 10].iter().cloned().collect();
+        }
+        let mut v: Vec<u16> = self.parsers[p].allowed_versions.iter().cloned().collect();
+        v.sort();
+        self.reconfigs.push((self.ops.len(), p, v));
+    }
     pub fn evict(&mut self, p: usize, map: &'static str, id: u16) -> bool {
         self.evictions.push((self.ops.len(), p, map, id));
         evict_from(&mut self.parsers[p], map, id)
@@ -38,13 +61,32 @@ impl Sut {
             for e in self.evictions.iter().filter(|e| e.0 == i) {
                 ops.push(json!({"parser": e.1, "evict": {"map": e.2, "id": e.3}}));
             }
+            for e in self.reconfigs.iter().filter(|e| e.0 == i) {
+                ops.push(json!({"parser": e.1, "allowed": if e.2.len() > 64 { json!("all-65536") } else { json!(e.2) }}));
+            }
             ops.push(json!({"parser": p, "hex": crate::util::hex(b)}));
         }
         for e in self.evictions.iter().filter(|e| e.0 >= self.ops.len()) {
             ops.push(json!({"parser": e.1, "evict": {"map": e.2, "id": e.3}}));
         }
+        // the sets in force before the first reassignment (= at the first call)
+        let initial = |i: usize, p: &NetflowParser| -> Value {
+            let v: Vec<u16> = match self.initial_allowed.get(i).and_then(|x| x.clone()) {
+                Some(v) => v,
+                None => {
+                    let mut v: Vec<u16> = p.allowed_versions.iter().cloned().collect();
+                    v.sort();
+                    v
+                }
+            };
+            if v.len() > 64 {
+                json!("all-65536")
+            } else {
+                json!(v)
+            }
+        };
         json!({
-            "parsers": self.parsers.iter().map(|p| { let mut v: Vec<u16> = p.allowed_versions.iter().cloned().collect(); v.sort(); if v.len() > 64 { json!("all-65536") } else { json!(v) } }).collect::<Vec<_>>(),
+            "parsers": self.parsers.iter().enumerate().map(|(i, p)| initial(i, p)).collect::<Vec<_>>(),
             "ops": ops,
         })
     }
